@@ -1,6 +1,23 @@
 """HTTP response family: C09 (response framing), C11 (pooled-buffer ownership: nbhttp Response, Parser/BodyReader,
 core Conn write queue, websocket Conn)."""
 
+from . import cs
+
+# Critical sections of the websocket twin `OwnW` (Model/OwnWs.lean): each action of the transition system is one
+# hold of the ws mutex (or, for dStart/dEnd, the conn write made outside it).
+#   send      = WriteMessage: all fragments inside one hold            -> cs.WSWRITE (writemessage/writeframe locked)
+#   dAdvance  = the sender goroutine takes the next slot under the lock,
+#   dStart..dEnd = conn.Write of the frame with the lock NOT held      -> cs.WSWRITE (ws_sendqueue_advance_locked)
+#   close     = CloseAndClean frees slots/cache/message inside one hold -> cs.WSCLOSE
+#   rxAppend, rxFrame = Parse touches bytesCached/message only under the lock; rxHandle = handlers outside it
+_WS_RX = [
+    cs.pred("ws_parse_buffers_locked", "nbhttp/websocket/conn.go", "websocket.Conn.Parse",
+            guarded={"recv.mux": ["recv.bytesCached", "recv.message"]},
+            unheld_calls={"recv.mux": ["recv.handleMessage", "recv.handleDataFrame", "recv.handleProtocolMessage"]}),
+    cs.callers_hold("ws_nextframe_only_under_lock", "nbhttp/websocket/conn.go", "recv.nextFrame", "recv.mux"),
+]
+_CS_WS = cs.WSWRITE + cs.WSCLOSE + _WS_RX
+
 RESP_RUN = {"harness": "hresp", "driver": "respdrv",
             "fields": ["n", "err", "w", "head", "hdr", "rest", "trl", "close"], "corpus": "resp",
             "quick": {"n": 175, "shards": 16}, "thorough": {"n": 3200, "shards": 32}}
@@ -13,7 +30,9 @@ PROPS = {
                     "for every handler program, write size, head byte string; reference unframing recovers the written bytes; "
                     "tied to the code by differential execution of generated handler programs through the real Parser -> handler -> "
                     "flushResponse path, plus a net/http.ReadResponse decoding oracle on the implementation alone",
-            "note": "model fidelity is sampled (differential run on every check); Sane excludes handler errors (see docs/resp.md)",
+            "note": "model fidelity is sampled (differential run on every check); Sane excludes handler errors (see docs/resp.md); "
+                    "ReadFrom is proved for the ServeContent shape only; every theorem except c09_write_returns_len "
+                    "assumes a conn that accepts the writes; HEAD is finding resp-head-body",
             "technique": "Lean 4 proof (invariant over op sequences) + differential correspondence + independent decoder oracle"},
         "lean": ["NbioVerif.Properties.C09"], "drivers": ["respdrv"], "harness": ["hresp"],
         "runs": [RESP_RUN],
@@ -38,14 +57,22 @@ PROPS = {
                     "stepped deterministically); harness/internal/track is shared with hws/hhttp/hconn",
             "technique": "Lean 4 proof (ownership invariant by induction over op sequences) + differential trace correspondence + tracking allocator"},
         "lean": ["NbioVerif.Properties.C11"], "drivers": ["respdrv"], "harness": ["hresp"],
-        "runs": [dict(RESP_RUN, fields=["n", "err", "tr", "rd", "cache", "q", "msg", "dl", "fl"])],
-        "oracles": ["c11-"],
+        "runs": [dict(RESP_RUN, fields=["n", "err", "tr", "own", "rd", "cache", "q", "msg", "dl", "fl"])],
+        "oracles": ["c11-"], "cs": _CS_WS,
         "rule": "same stream as C09 (resp cases) plus body cases (segmented requests, handler reads, CloseAndClean) and conn cases (write "
                 "queue under scripted kernel answers) and ws cases (received segments with fragments/control frames/an invalid frame, "
                 "WriteMessage direct or through the async send queue with gated conn writes, write errors, CloseAndClean at any point); distinct by hash of (config, op-kind sequence with conn writes / parser state / "
                 "queue length per op); non-trivial iff a buffer changed hands: a conn write before the final flush, bytes left in the "
                 "parser cache, a non-empty write queue, a frame in flight in the sender goroutine, or bytes in the ws cache/message",
-        "assumptions": ["the tracking allocator replaces the real pool (non-recycling, poison on free, move on growth): pool-internal "
+        "assumptions": ["no lemma relates the byte-level model Resp to the twin Own: the driver evaluates the simulation relation "
+                        "Own.sim after every op and the owner fields (ids, lengths) are compared with the real Response",
+                        "HTTP side is sequential (handler inline): interleavings with an asynchronous handler are argued from "
+                        "c11_response_frames_request + exclusive hand-over of request/response to the handler closure",
+                        "reads/reslices of a pooled buffer leave no allocator event: their placement in the twins is untied "
+                        "(read-side oracles: cache = unparsed tail, handler payloads live, pong echoes its ping)",
+                        "not in the twins: Parse's upgrade path, ClientProcessor, RetainHTTPBody, Hijack, panicking handlers, "
+                        "permessage-deflate buffers (hws -track), UDP",
+                        "the tracking allocator replaces the real pool (non-recycling, poison on free, move on growth): pool-internal "
                         "behaviour is C20's subject",
                         "content-dependent decisions (chunked, Content-Length verdict, head length) are environment answers of the twin, "
                         "computed by the byte-level model in the driver"],
